@@ -118,7 +118,7 @@ func (s *Session) call(ctx interface{}, withCtx bool, alt int, args []interface{
 			s.Problems = append(s.Problems, fmt.Sprintf("call %d (alt %d): $Context is %v, the parser's Context field holds %v", s.Calls, alt, ctx, s.Ctx))
 		}
 	}
-	n.str = "N" + strconv.Itoa(alt) + c + "(" + strings.Join(parts, ",") + ")"
+	n.str = Shorten("N" + strconv.Itoa(alt) + c + "(" + strings.Join(parts, ",") + ")")
 	s.Log = append(s.Log, n.str)
 	if s.FaultCall > 0 && s.Calls == s.FaultCall && s.Fault == nil {
 		s.Fault = &Injected{Task: s.TaskID, Call: s.Calls, Tag: fmt.Sprintf("injected-fault-task%d-call%d", s.TaskID, s.Calls)}
@@ -138,4 +138,19 @@ func N(alt int, args ...interface{}) (interface{}, error) {
 // NC is the action stub for alternatives that use $Context.
 func NC(ctx interface{}, alt int, args ...interface{}) (interface{}, error) {
 	return session().call(ctx, true, alt, args)
+}
+
+// Shorten keeps renderings of deep trees small: a rendering longer than 1 KiB
+// is replaced by a digest of itself.  Children are shortened before their
+// parent is built, so the cost per node is bounded, and the result is still a
+// function of the whole tree (the harness's own evaluator applies the same rule).
+func Shorten(s string) string {
+	if len(s) <= 1024 {
+		return s
+	}
+	h := uint64(14695981039346656037)
+	for i := 0; i < len(s); i++ {
+		h = (h ^ uint64(s[i])) * 1099511628211
+	}
+	return "#" + strconv.FormatUint(h, 16) + ":" + strconv.Itoa(len(s))
 }
